@@ -690,6 +690,14 @@ def symmap_method(it, m, name, node):
 def symlist_method(it, lst, name, node):
     if name == 'append':
         return Builtin('list.append', lambda it_, a, k, n: lst.append(a[0]))
+    if name == 'clear':
+        def clear(it_, a, k, n):
+            lst._write('length', z3.IntVal(0))
+            lst._write('cache', {})
+            if lst.origin is not None:
+                lst._write('origin', ('cleared', lst.origin))
+            return None
+        return Builtin('list.clear', clear)
     if name == 'pop':
         def pop(it_, a, k, n):
             if a or k:
@@ -901,6 +909,15 @@ def select_by_index(it, items, i, node, what='list-index'):
 
 
 def getitem(it, obj, key, node=None):
+    r = _getitem(it, obj, key, node)
+    # an element taken out of module-level state (possibly a merged view over several of its elements when the key is
+    # symbolic) is module-level state as well: writes through it count for the frame obligation
+    if isinstance(r, Mutable) and id(obj) in GLOBAL_OBJS and id(r) not in GLOBAL_OBJS:
+        register_global(GLOBAL_OBJS[id(obj)][0] + '[..]', r)
+    return r
+
+
+def _getitem(it, obj, key, node=None):
     if hasattr(obj, 'py_getitem'):
         return obj.py_getitem(it, key, node)
     if isinstance(obj, HostOpaque):
